@@ -184,7 +184,12 @@ class DocGen:
             return ("null",)
         if t[0] == "list":
             if depth < 2 and rng.random() < 0.85:
-                return ("list", [self.literal(t[1], depth + 1, const=const) for _ in range(rng.randint(0, 2))])
+                # items: literals, or (outside constants) VARIABLES allowed at the item position - at depth 1 and 2,
+                # also below object fields inside lists (hunt C06/1, C06/2: the item position has the list's item type)
+                return ("list", [self.value(t[1], False, depth + 1, p_var=0.3)
+                                 if not const and self.scope_stack and rng.random() < 0.5
+                                 else self.literal(t[1], depth + 1, const=const)
+                                 for _ in range(rng.randint(0, 2))])
             if t[1][0] == "list" or strip_nn(t[1])[0] == "list":
                 return ("list", [])
             return self.literal(t[1], depth + 1, allow_null=False, const=const)   # single item coerced to a list
@@ -215,10 +220,10 @@ class DocGen:
             return ("obj", fs)
         raise ValueError("no literal for %r" % (t,))
 
-    def value(self, t, loc_has_default=False, depth=0):
+    def value(self, t, loc_has_default=False, depth=0, p_var=None):
         """literal or variable conforming to position type t"""
         rng = self.rng
-        if self.scope_stack and rng.random() < (0.3 if depth == 0 else 0.12):
+        if self.scope_stack and rng.random() < (p_var if p_var is not None else 0.3 if depth == 0 else 0.12):
             # reuse a variable allowed here, or create one
             ok = [n for n, v in self.vars.items()
                   if var_allowed(v["type"], v["default"] not in (None, ("null",)), t, loc_has_default)]
